@@ -158,6 +158,9 @@ func check(p Params) func(r *vrt.Result) string {
 			}
 			rr := w.Retries[ri]
 			ri++
+			if p.B.MaxElapsedTime > 0 && time.Duration(a.At-start)+rr.Wait > p.B.MaxElapsedTime {
+				return fmt.Sprintf("a retry was started with a wait of %v although %v of MaxElapsedTime %v had already passed: %s", rr.Wait, time.Duration(a.At-start), p.B.MaxElapsedTime, desc())
+			}
 			if jit == -1 {
 				if !near(rr.Wait, base) {
 					return fmt.Sprintf("retry #%d waits %v, want exactly %v (Jitter -1 = no randomisation): %s", count, rr.Wait, base, desc())
